@@ -130,6 +130,8 @@ def expr_cases(tier, seed):
             for o1, o2 in itertools.product(ops, ops):
                 k += 1
                 ctx = CONTEXTS[(k + seed) % nctx]
+                if not _allowed(ctx, la, lb, lc):
+                    continue
                 yield (f"bin2l:{la}{o1}{lb}{o2}{lc}", ctx, binop(binop(a, o1, b_), o2, c_))
                 yield (f"bin2p:{la}{o1}({lb}{o2}{lc})", ctx, binop(a, o1, paren(binop(b_, o2, c_))))
                 yield (f"bin2q:({la}{o1}{lb}){o2}{lc}", ctx, binop(paren(binop(a, o1, b_)), o2, c_))
